@@ -843,17 +843,9 @@ def run_case(case, ctx):
 
 # --------------------------------------------------------------------------
 def classify(case, witness):
-    """Mechanism -> finding id, as a predicate over the inputs of the call that broke the contract.
-
-    C08:leg-end-on-border-near-corner -- __cellsCrossSegment drops the cell a segment lies in when one of its end
-    points sits exactly on a border of that cell within rounding distance of (not at) a corner: the straddle test of
-    isSegmentIntersects then evaluates the segment's line at the corner and gets a rounding-noise sign.
-
-    The defects already repaired in the repository (upper-border IndexError, larger cell side in
-    groundDistanceToUnits, leg on the upper outer border) map to None: 'fixed' entries suppress nothing."""
-    if not isinstance(witness, dict):
-        return None
-    mech = witness.get("mechanism") or {}
-    if witness.get("cellsCrossSegment_call") and mech.get("end_on_border_near_corner"):
-        return "C08:leg-end-on-border-near-corner"
+    """No open finding for C08.  The four defects this check reported (upper-border IndexError, larger cell side in
+    groundDistanceToUnits, leg on the upper outer border registered nowhere, leg ending on a cell border within
+    rounding distance of a corner registered nowhere) are repaired in the repository; 'fixed' entries of
+    known_findings.json suppress nothing.  The input predicates that identified them stay in the witness under
+    "mechanism" / "cellsCrossSegment_call" for diagnosis only."""
     return None
